@@ -489,7 +489,7 @@ func checkC20Timestamp(c *Ctx, T *Tables, msm TySet) {
 		return
 	}
 	// every successful typed return for an MSM type passes a timestamp store
-	for _, r := range returnsOf(fn) {
+	for _, r := range virtualReturns(fn) {
 		if len(r.Results) != 2 {
 			continue
 		}
@@ -499,20 +499,50 @@ func checkC20Timestamp(c *Ctx, T *Tables, msm TySet) {
 		}
 		dominated := false
 		for _, st := range tsStores {
-			if instrDominates(st, r) {
+			if r.DominatedBy(st) {
 				dominated = true
 			}
 		}
 		if dominated {
-			c.OK("C20-T6", "GetMessage:typed-return(with timestamp)", r.Pos(), "dominated by the timestamp store")
+			c.OK("C20-T6", "GetMessage:typed-return(with timestamp)", r.R.Pos(), "dominated by the timestamp store")
 			continue
 		}
-		// valid (nil error) returns only
+		// an error return without a timestamp is legitimate only for a message too short to hold one
+		// (the exit guarded by a length test against a constant); any other MSM exit carries the timestamp
 		if !isNilConst(r.Results[1]) {
-			continue
+			tooShort := false
+			for _, ft := range r.Facts() {
+				if bo, ok := ft.Cond.(*ssa.BinOp); ok && isInteger(bo.X.Type()) {
+					_, cy := constInt(bo.Y)
+					_, cx := constInt(bo.X)
+					if (cy || cx) && (bo.Op == token.LSS || bo.Op == token.LEQ || bo.Op == token.GTR || bo.Op == token.GEQ) {
+						// the rejecting edge of a length comparison: value below the constant
+						if (cy && (bo.Op == token.LSS || bo.Op == token.LEQ) && ft.Val) || (cy && (bo.Op == token.GTR || bo.Op == token.GEQ) && !ft.Val) ||
+							(cx && (bo.Op == token.GTR || bo.Op == token.GEQ) && ft.Val) || (cx && (bo.Op == token.LSS || bo.Op == token.LEQ) && !ft.Val) {
+							tooShort = true
+						}
+					}
+				}
+			}
+			// ... or for a frame that was rejected before or by the CRC check
+			verified := false
+			for _, ft := range r.Facts() {
+				if bo, ok := ft.Cond.(*ssa.BinOp); ok && (bo.Op == token.EQL || bo.Op == token.NEQ) {
+					x, y := bo.X, bo.Y
+					if isNilConst(x) {
+						x, y = y, x
+					}
+					if call, ok := x.(*ssa.Call); ok && isNilConst(y) && call.Call.StaticCallee() != nil && call.Call.StaticCallee().Name() == "CheckCRC" && (bo.Op == token.EQL) == ft.Val {
+						verified = true
+					}
+				}
+			}
+			if tooShort || !verified {
+				continue
+			}
 		}
-		s := pa.Reach[r.Block()].And(msm)
-		c.Check(s.Empty(), "C20-T6", "GetMessage:typed-return(no timestamp)", r.Pos(), "not reachable for MSM types",
+		s := pa.Reach[r.At].And(msm)
+		c.Check(s.Empty(), "C20-T6", "GetMessage:typed-return(no timestamp)", r.R.Pos(), "not reachable for MSM types",
 			fmt.Sprintf("MSM types %v can be returned without an extracted timestamp", s))
 	}
 }
